@@ -4,7 +4,7 @@ C16 - Reflexive sorting yields the succession order and terminates.
 Oracle (direct): every member exactly once, each chain contiguous, beginning
 with the member without partner across the phrase and following the opposite
 phrase; a ring once around from the set's first member. Termination: a
-counting wrapper around xtuml.meta.navigate_one cuts the call after 4n+16
+counting wrapper around xtuml.meta.navigate_one cuts the call after 16n+64
 navigations (logical step budget) and a CPU-time budget backs it up.
 '''
 import itertools
@@ -29,7 +29,7 @@ RULE = ('exhaustive: every arrangement of n <= N instances (N=5 quick, 7 thoroug
 ASSUMPTIONS = ['the order among different chains in the result is not specified and not compared']
 LEVEL_TEXT = ('Bounded-exhaustive over all chain arrangements and rings of up to 7 (quick) / 8 (thorough) '
               'instances for both phrases plus random sets to 300 instances, result compared with the '
-              'directly stated succession order, every call under a logical step budget of 4n+16 '
+              'directly stated succession order, every call under a logical step budget of 16n+64 '
               'navigations; held on all explored sets.')
 LEVEL_NOTE = 'Trusted: the direct oracle in vf/checks/c16.py; navigate_one is wrapped for step counting.'
 TECHNIQUE = 'runtime monitoring: direct order oracle + step-budget failpoint on navigate_one over exhaustive chain/ring arrangements'
@@ -124,7 +124,7 @@ HITS = {}
 def call_sort(budget, qs, n, phrase):
     import xtuml
     from vf.ctx import cpu_budget, BudgetExceeded
-    budget.limit = 4 * n + 16
+    budget.limit = 16 * n + 64
     budget.steps = 0
     budget.guarded += 1
     try:
